@@ -49,15 +49,17 @@ theorem fifo_calls :
     callsOf "Queue.Enqueue" = ["Load", "Lock", "Unlock", "Push", "Add", "Cap", "min", "Push", "Add"] ∧
     callsOf "Queue.Dequeue" = ["Lock", "Unlock", "Pop", "Add", "Pop", "Add", "new"] ∧
     callsOf "Queue.Purge" = ["Lock", "Unlock", "Store", "Store"] := by decide
-/-- the functions of the container types (queues, chunks, heap, idle list, manager) are the ones the models transcribe: a new
+/-- the functions of the container types (queues, chunks, heap, idle list and its nodes, manager, Response, WgCounter) are the ones the models transcribe: a new
     method that changes a representation behind the models' back is reported -/
 theorem container_funcs : containerFuncs =
     ["Chunk.Cap", "Chunk.IsFull", "Chunk.Pop", "Chunk.Push", "List.Back", "List.Front", "List.Init", "List.InsertAfter", "List.Len",
      "List.NodeSlice", "List.PopBack", "List.PopBackIfLonger", "List.PopFront", "List.PushBack", "List.PushFront", "List.PushNode",
      "List.Remove", "List.insertValue", "Manager.Count", "Manager.GetMaxLenItem", "Manager.GetMinLenItem", "Manager.GetRoundRobinItem",
-     "Manager.Len", "Manager.Register", "Manager.UnregisterItem", "PriorityQueue.Close", "PriorityQueue.Dequeue", "PriorityQueue.Enqueue",
+     "Manager.Len", "Manager.Register", "Manager.UnregisterItem", "Node.GetLastUsed", "Node.Next", "Node.Prev", "Node.Send", "Node.Serve",
+     "Node.Stop", "Node.UpdateLastUsed", "PriorityQueue.Close", "PriorityQueue.Dequeue", "PriorityQueue.Enqueue",
      "PriorityQueue.Len", "PriorityQueue.Purge", "PriorityQueue.Values", "Queue.Close", "Queue.Dequeue", "Queue.Enqueue", "Queue.Len",
-     "Queue.Purge", "Queue.Values", "heapQueue.Len", "heapQueue.Less", "heapQueue.Pop", "heapQueue.Push"] := by decide
+     "Queue.Purge", "Queue.Values", "Response.Close", "Response.Drain", "Response.Response", "Response.Send", "WgCounter.Count",
+     "WgCounter.Done", "WgCounter.Wait", "heapQueue.Len", "heapQueue.Less", "heapQueue.Pop", "heapQueue.Push"] := by decide
 /-- the idle list (model Pool / Trim / Reap: PopBack takes the last node, Remove refuses a node that is not linked,
     PopBackIfLonger is one step) and the queue manager (model Manager) are transcriptions of these branches -/
 theorem list_guards :
